@@ -282,6 +282,25 @@ def nontrivial(r):
     return False
 
 
+FAMILIES = [{"5", "6", "7"}, {"9", "10", "24"}, {"16", "17"}]
+
+
+def nonexact_first(r):
+    """a socket importing exactly one version of a family, and a plug exporting that version AFTER another version of
+    the family (the per-import dedupe must prefer the exact name over the first pair)"""
+    parts = r["lib"].split(" ; ")
+    if not parts or "=" not in parts[0]:
+        return False
+    simp = [x.split(":")[0] for x in parts[0].split(" ")[0].partition("=")[2].split(",") if x]
+    for pl in parts[1:]:
+        ex = [x.split(":")[0] for x in pl.split(" ")[1].partition("=")[2].split(",") if x]
+        for fam in FAMILIES:
+            fe = [x for x in ex if x in fam]; fi = [x for x in simp if x in fam]
+            if len(fe) >= 2 and len(fi) == 1 and fi[0] in fe and fe[0] != fi[0]:
+                return True
+    return False
+
+
 def run(res, tier, seed, replay):
     pr = vlib.proof_stage(res, PID)
     ok, log = vlib.ensure_extraction("c10", "theories/extract/ExtractC10.v")
@@ -363,7 +382,8 @@ def run(res, tier, seed, replay):
                             spec=fields(r["model"]).get("V", "")))
     res.coverage.update(dict(
         evaluations=ncase, correspondence_cases=ncase, disagreements=len(disagree),
-        spec_failures_on_impl=len(failing), known_finding_cases=known_hits, merged_import_observations=MERGED[0],
+        spec_failures_on_impl=len(failing), known_finding_cases=known_hits,
+        single_version_import_nonexact_export_first=len([r for r in results if nonexact_first(r)]), merged_import_observations=MERGED[0],
         distinct_nontrivial=len(distinct), outcome_distribution=outcomes, spec_verdict_distribution=verdicts,
         plug_list_lengths=lens, samples=samples,
         rule="cases: regression corpus (the four refutation witnesses and neighbours) + generated libraries: per block 3-6 sockets "
